@@ -26,6 +26,13 @@ Theorem terms_model_eq_spec_nonvacuous :
 Proof. exact all_cfgs_size. Qed.
 Print Assumptions terms_model_eq_spec_nonvacuous.
 
+(* Known finding D58: "no accepted call aborts" is false of the faithful model -- a rectangular S matrix
+   on a diagonal type passes every argument check and reaches assert(vnprp != NULL) in build_terms_t8
+   (witness replayed on the library by checks/C01.py). *)
+Theorem rectangular_s_reaches_assert_refuted : exists a, add_common a = Aborts 11.
+Proof. exact rectangular_s_reaches_assert. Qed.
+Print Assumptions rectangular_s_reaches_assert_refuted.
+
 (* ------------------------------------------------------------------------------------------------ *)
 From mathcomp Require Import all_ssreflect all_fingroup all_algebra.
 Require LV.Cal.CalAlgebra.
